@@ -13,6 +13,7 @@ from fractions import Fraction
 
 from hypothesis import strategies as st
 
+from .gens import wide_ints
 from .core import Fail, GeneratorBug
 from .values import (Vec, canon, fbits, from_canon, is_num, level, norm, render, render_float, render_int)
 
@@ -403,7 +404,7 @@ def s_ints():
     b = st.builds(lambda b, d, s: s * (b + d), st.sampled_from([0, 1, 2, 2 ** 31, 2 ** 53, 2 ** 62, 2 ** 63, 2 ** 64]),
                   st.integers(-2, 2), st.sampled_from([1, -1]))
     big = st.integers(1, 220).flatmap(lambda k: st.integers(-(2 ** k), 2 ** k))
-    return st.one_of(st.integers(-12, 12), b, big)
+    return st.one_of(st.integers(-12, 12), b, big, wide_ints(30, 220))
 
 
 def s_rats():
@@ -411,14 +412,22 @@ def s_rats():
     big = st.builds(Fraction, st.integers(1, 200).flatmap(lambda k: st.integers(-(2 ** k), 2 ** k)),
                     st.integers(1, 200).flatmap(lambda k: st.integers(1, 2 ** k)))
     integral = st.builds(Fraction, s_ints())
-    return st.one_of(small, small, big, integral)
+    # numerators / denominators wider than a double's mantissa and wider than a machine word, all widths equally likely
+    wide = st.builds(Fraction, wide_ints(1, 200), wide_ints(1, 200, signed=False))
+    wide53 = st.builds(Fraction, wide_ints(50, 70), wide_ints(1, 70, signed=False))
+    return st.one_of(small, small, big, integral, wide, wide53)
 
 
 def s_floats():
     special = st.sampled_from([0.0, -0.0, math.inf, -math.inf, math.nan, 2.0 ** 53, 2.0 ** 53 + 2, 2.0 ** 53 - 1,
-                               5e-324, 2.2250738585072014e-308, 1.7976931348623157e308, 0.1, 0.5, 1.5, -2.5, 1e30, 1e-30])
+                               5e-324, 2.2250738585072014e-308, 1.7976931348623157e308, 0.1, 0.5, 1.5, -2.5, 1e30, 1e-30,
+                               2.0 ** 31, -(2.0 ** 31), 2.0 ** 32, 2.0 ** 62, 2.0 ** 63, -(2.0 ** 63), 2.0 ** 63 - 1024, -(2.0 ** 63) - 2048,
+                               2.0 ** 63 + 2048, 2.0 ** 64, -(2.0 ** 64), 1e19, 2.0 ** 63 + 0.0, 4611686018427387904.5 - 0.5])
+    # integer-valued floats at the machine-word boundaries and of every width (float -> int conversions have word fast paths)
+    intf = st.one_of(s_ints(), wide_ints(40, 80)).map(float)
+    halff = st.builds(lambda n, s: s * (n + 0.5), st.integers(0, 2 ** 52 - 1), st.sampled_from([1, -1]))
     dyadic = st.builds(lambda n, k: n / (2 ** k), st.integers(-4096, 4096), st.integers(0, 10))
-    return st.one_of(special, dyadic, st.floats(allow_nan=False, allow_infinity=False), st.floats(width=32, allow_nan=False))
+    return st.one_of(special, dyadic, st.floats(allow_nan=False, allow_infinity=False), st.floats(width=32, allow_nan=False), intf, halff)
 
 
 def s_complex():
@@ -445,6 +454,18 @@ def s_cases():
                       st.sampled_from(OPS), s_num(), s_num())
     fl = st.builds(lambda op, a, b: {"t": "bin", "op": op, "a": canon(a), "b": canon(b)},
                    st.sampled_from(OPS), s_floats(), s_floats())
+    # a rational wider than a double's mantissa meeting a float of comparable (or neutral) magnitude: the rational has to be
+    # converted with a single correct rounding, and a float that is neither huge nor tiny relative to it keeps the last bit visible
+    def near(r, m):
+        try:
+            return (r.numerator / r.denominator) * m
+        except OverflowError:
+            return 1.0
+    wrat = st.builds(Fraction, wide_ints(40, 120), wide_ints(1, 120, signed=False))
+    sens = st.sampled_from([0.0, -0.0, 1.0, -1.0, 0.5, 2.0, 1.5, 3.0, 0.25])
+    rf = st.builds(lambda op, r, m, rel, swap: {"t": "bin", "op": op, "a": canon(m if not rel else near(r, m)) if swap else canon(r),
+                                                 "b": canon(r) if swap else canon(m if not rel else near(r, m))},
+                   st.sampled_from(OPS), wrat, sens, st.booleans(), st.booleans())
     power = st.builds(lambda a, e, fa: {"t": "bin", "op": "^", "a": canon(a), "b": canon(e), "fa": fa},
                       s_num((0, 1)), st.integers(-12, 12), rforms)
     un = st.builds(lambda fn, a, fa: {"t": "un", "fn": fn, "a": canon(a), "fa": fa},
@@ -468,7 +489,7 @@ def s_cases():
     veq = st.integers(0, 4).flatmap(lambda n: st.builds(
         lambda op, a, b: {"t": "vec", "op": op, "a": canon(Vec(a)), "b": canon(Vec(b))},
         st.sampled_from(OPS), st.lists(elem, min_size=n, max_size=n), st.lists(elem, min_size=n, max_size=n)))
-    return st.one_of(exact, exact, neardiv, mixed, mixed, fl, power, un, un, ties, tiesf, vec, vec2, veq, vpow, vpow2)
+    return st.one_of(exact, exact, neardiv, mixed, mixed, fl, power, un, un, ties, tiesf, vec, vec2, veq, vpow, vpow2, rf)
 
 
 def worker(ctx):
